@@ -6,7 +6,10 @@ from core.wire import atom, line, parse_reply, Atom
 ID = "C30"
 LEAN_TARGETS = ["TornadoModel.C30.Props"]
 _T = "TornadoModel.C30."
-THEOREMS = [_T + "only_input_error"]
+THEOREMS = [_T + n for n in [
+    "only_input_error", "urlencoded_roundtrip", "urlencoded_roundtrip_entry", "limits_enforced_parts", "limits_enforced_parts_reject",
+    "limits_enforced_header", "multipart_trailing_backslash_refuted",
+]]
 TRUSTED = [
     "bytes.find/rfind/split, str.split/strip/partition/startswith, UTF-8 decoding, urllib.parse.parse_qs(l)/unquote (latin-1), "
     "email.utils (see C43) — modelled as they behave in CPython 3.12 and exercised by the correspondence stream",
@@ -27,11 +30,11 @@ RULE = ("forms of 0-6 fields/files (binary contents, empty values, repeated name
         "types; limits at count-1/count/count+1; non-trivial = a form with >=1 part parsed successfully, or a mutated body")
 EXHAUSTIVE = {"quick": False, "thorough": False}
 CLAUSES = {
-    "multipart with a boundary occurring nowhere in the content is recovered exactly": "tie only (multipart_roundtrip_goal stated; "
-        "multipart_trailing_backslash_refuted: known finding)",
-    "urlencoded forms are recovered exactly": "urlencoded_roundtrip",
+    "multipart with a boundary occurring nowhere in the content is recovered exactly": "tie only: multipart_roundtrip_goal is stated (def, not proved); "
+        "multipart_roundtrip_full is false, multipart_trailing_backslash_refuted (known finding)",
+    "urlencoded forms are recovered exactly": "urlencoded_roundtrip, urlencoded_roundtrip_entry",
     "any other body succeeds or raises HTTPInputError, never another exception": "only_input_error",
-    "part-count and part-header-size limits are enforced": "limits_enforced_parts, limits_enforced_header",
+    "part-count and part-header-size limits are enforced": "limits_enforced_parts, limits_enforced_parts_reject, limits_enforced_header",
 }
 PARALLEL = True
 CASE_TIMEOUT = 20
